@@ -257,9 +257,13 @@ def gen_geometry(g):
     nprims = rng.choice([0, 1, 1, 2, 3]) if g.size > 0 else rng.choice([0, 1, 1, 1, 2])
     if large:
         nprims = max(nprims, 2)
+    if big:
+        nprims = 7
     for _ in range(nprims):
         tag = rng.choice(['triangles', 'triangles', 'tristrips', 'trifans', 'lines', 'polylist', 'polylist', 'polygons'])
-        if large and len(geom['prims']) < 2:
+        if big:
+            tag = ['triangles', 'polylist', 'lines', 'polygons', 'tristrips', 'trifans', 'polylist'][len(geom['prims']) % 7]
+        elif large and len(geom['prims']) < 2:
             tag = ['triangles', 'polylist'][len(geom['prims'])]
         inputs = [['VERTEX', vid, None]]
         if normals and g.chance(0.6):
@@ -305,13 +309,26 @@ def gen_geometry(g):
                 ls = [src_len(byid[ref])]
             limit[o] = min([limit.get(o, 10 ** 6)] + ls)
 
+        # large sources: every primitive draws most of its indices just below a cap of its own - the end of the
+        # source, or the last value of a narrower integer type (signed / unsigned 8 and 16 bits) and the band behind it
+        caps = {}
+
+        def cap_for(o, hi_):
+            if o not in caps:
+                cands = [hi_] + [c for c in (127, 128, 255, 256, 32767, 32768, 33000, 40000, 65535, 65536) if c <= hi_]
+                caps[o] = rng.choice(cands)
+            return caps[o]
+
         def rows(k):
             out = []
             for _ in range(k):
                 for o in range(nind):
                     hi_ = limit.get(o, 9) - 1
-                    # large sources: mostly the last indices (they are the ones a narrow integer type would wrap)
-                    out.append(rng.randint(max(0, hi_ - 3), hi_) if hi_ > 100 and rng.random() < 0.7 else rng.randint(0, hi_))
+                    if hi_ > 100 and rng.random() < 0.7:
+                        top = cap_for(o, hi_)
+                        out.append(rng.randint(max(0, top - 3), top))
+                    else:
+                        out.append(rng.randint(0, hi_))
             return out
 
         prim = {'tag': tag, 'material': g.word() if g.chance(0.7) else None, 'inputs': ins, 'ps': [], 'vcount': None,
